@@ -243,6 +243,11 @@ class CompositeFrontend(ConstrainedFrontend):
         for v in ns.variables | extra_names:
             # os = self._solvers[v]
             self._solvers[v] = ns
+        # children have pairwise disjoint variables: a child that still overlaps the stored one has been merged into it,
+        # so whatever variables still point to it (variables its constraints no longer mention) are stale
+        for v, other in list(self._solvers.items()):
+            if other is not ns and not other.variables.isdisjoint(ns.variables):
+                del self._solvers[v]
         if invalidate_cache:
             self._unchecked_solvers.add(ns)
 
@@ -507,6 +512,8 @@ class CompositeFrontend(ConstrainedFrontend):
 
             for v in s.variables:
                 merged._solvers[v] = s
+            # nobody may have checked this child yet
+            merged._unchecked_solvers.add(s)
 
         noncommon_solvers = [[s for s in cs._solver_list if id(s) not in common_ids] for cs in [self, *others]]
 
